@@ -16,6 +16,7 @@ import (
 	"strings"
 	"time"
 
+	"github.com/gorilla/websocket"
 	lime "github.com/takenet/lime-go"
 	"verif/gosim/harness"
 	"verif/gosim/rt"
@@ -516,8 +517,15 @@ func body(variant string, cfgs []Config, depth int, allowTLSRefusal bool) func(x
 		var conn *rt.Conn
 		var srv *lime.Server
 		var ip *inprocPeer
+		var wsPeer *lib.RawPeer
 		switch variant {
-		case "server":
+		case "server", "server-ws":
+			if variant == "server-ws" {
+				// the WebSocket transport supports no in-band encryption: for the model this
+				// is a connection without TLS capability
+				cfg.TLS = false
+				r.cfg = cfg
+			}
 			pl := lib.NewPipeListener(tcpCfg, 64<<10, 1)
 			sc := lime.NewServerConfig()
 			sc.Node = lib.ServerNode
@@ -538,7 +546,13 @@ func body(variant string, cfgs []Config, depth int, allowTLSRefusal bool) func(x
 			sc.Finished = func(id string) { r.finCb++; x.Obs("finished-callback") }
 			srv = lime.NewServer(sc, &lime.EnvelopeMux{}, lime.NewBoundListener(pl, lib.PipeAddr("p")))
 			go func() { _ = srv.ListenAndServe() }()
-			conn = pl.Dial()
+			var cws *websocket.Conn
+			if variant == "server-ws" {
+				cws, conn = pl.DialWSRaw()
+				wsPeer = lib.NewRawPeerWS(cws, conn)
+			} else {
+				conn = pl.Dial()
+			}
 			r.srvTr = pl.Transports[0]
 			r.srvConn = pl.Servers[0]
 			pl.Servers[0].Tap = func(b []byte) {
@@ -583,7 +597,9 @@ func body(variant string, cfgs []Config, depth int, allowTLSRefusal bool) func(x
 			}()
 		}
 		var peer *lib.RawPeer
-		if ip == nil {
+		if wsPeer != nil {
+			peer = wsPeer
+		} else if ip == nil {
 			peer = lib.NewRawPeer(conn)
 		}
 		model := newModel(cfg)
@@ -602,7 +618,7 @@ func body(variant string, cfgs []Config, depth int, allowTLSRefusal bool) func(x
 					in.name += "+vanish"
 				}
 			}
-			so := stepObs{in: in, clientTLS: peer != nil && peer.Conn != peer.Raw}
+			so := stepObs{in: in, clientTLS: peer != nil && peer.TLS()}
 			switch {
 			case ip != nil && in.kind == "close":
 				_ = ip.t.Close()
@@ -636,7 +652,7 @@ func body(variant string, cfgs []Config, depth int, allowTLSRefusal bool) func(x
 						break
 					}
 					so.got = append(so.got, m)
-					so.gotTLS = append(so.gotTLS, peer != nil && peer.Conn != peer.Raw)
+					so.gotTLS = append(so.gotTLS, peer != nil && peer.TLS())
 					if r.sid == "" {
 						r.sid = lib.Str(m, "id")
 					}
@@ -646,7 +662,7 @@ func body(variant string, cfgs []Config, depth int, allowTLSRefusal bool) func(x
 					x.Obs("  got state=%v", m["state"])
 					// a confirmed TLS negotiation: the client upgrades (or, as a
 					// hostile variant, keeps talking cleartext)
-					if lib.Str(m, "state") == "negotiating" && m["encryptionOptions"] == nil && lib.Str(m, "encryption") == "tls" && peer != nil && peer.Conn == peer.Raw {
+					if lib.Str(m, "state") == "negotiating" && m["encryptionOptions"] == nil && lib.Str(m, "encryption") == "tls" && peer != nil && !peer.TLS() && !peer.WS {
 						refuse := allowTLSRefusal && rt.Choose(2) == 1
 						if !refuse {
 							if err := peer.StartTLSClient(); err != nil {
@@ -1156,7 +1172,7 @@ func judge(prop string) func(x *harness.X, res *rt.Result) {
 		if r.variant == "server-inproc" {
 			srvSideEstablished = false // a send to a closed in-process transport always fails
 		}
-		if want("C14") && (r.variant == "server" || r.variant == "server-inproc") && !established && !srvSideEstablished {
+		if want("C14") && (r.variant == "server" || r.variant == "server-ws" || r.variant == "server-inproc") && !established && !srvSideEstablished {
 			if !r.eof {
 				x.Failf("C14:not-closed:"+endClass(r, m), "handshake did not establish but the server never closed the connection (client saw no EOF within 45s of virtual time) %s", script())
 			}
@@ -1629,6 +1645,8 @@ func Main(prop string) {
 		add("server/guest/d3/k2", "server", sel("guest/none"), 3, false, -1, 2)
 		add("server-inproc/guest+plain/d3", "server-inproc", sel("guest/none", "plain/none+tls"), 3, false, 0, -1)
 		add("server-inproc/all/d4", "server-inproc", all, 4, false, -1, 0)
+		add("server-ws/guest+plain/d3", "server-ws", sel("guest/none", "plain/none+tls"), 3, false, 0, -1)
+		add("server-ws/all/d4", "server-ws", all, 4, false, -1, 0)
 	default: // C03, C07
 		add("server/all/d4", "server", all, 4, false, 0, -1)
 		add("channel/all/d4", "channel", all, 4, false, 0, -1)
@@ -1638,6 +1656,8 @@ func Main(prop string) {
 		add("server/guest/d3/k2", "server", sel("guest/none"), 3, false, -1, 2)
 		add("server-inproc/guest+plain/d3", "server-inproc", sel("guest/none", "plain/none+tls"), 3, false, 0, -1)
 		add("server-inproc/all/d4", "server-inproc", all, 4, false, -1, 0)
+		add("server-ws/guest+plain/d3", "server-ws", sel("guest/none", "plain/none+tls"), 3, false, 0, -1)
+		add("server-ws/all/d4", "server-ws", all, 4, false, -1, 0)
 	}
 	harness.Main(harness.Check{
 		Property:  prop,
